@@ -64,7 +64,7 @@ class Leg(object):
     chunk  - items per task
     """
     def __init__(self, name, fn, items, chunk=64, exhaustive=True, note='', parallel=True,
-                 bound=None, timeout=1800, src_states=None, supplementary=False):
+                 bound=None, timeout=1800, src_states=None, supplementary=False, probe=4):
         self.name = name
         self.fn = fn
         self.items = items
@@ -76,6 +76,7 @@ class Leg(object):
         self.timeout = timeout
         self.src_states = src_states
         self.supplementary = supplementary
+        self.probe = probe      # number of first items replayed twice in the parent (determinism / ownership check)
 
 
 _WORK = {}
@@ -161,14 +162,15 @@ class Run(object):
             self.legs_out[leg.name] = {'items': 0, 'transitions': 0, 'nontrivial': 0, 'note': leg.note + ' (empty)'}
             return
         # determinism / ownership check + JIT warm-up: first few items twice in the parent
-        probe = chunks[0][:min(4, len(chunks[0]))]
-        _WORK[leg.name] = (leg.fn, [probe])
-        _, r1 = _run_chunk((leg.name, 0))
-        _, r2 = _run_chunk((leg.name, 0))
-        sig1 = json.dumps(jsonable({k: r1.get(k) for k in ('n', 'nt', 'viol', 'error')}), sort_keys=True)
-        sig2 = json.dumps(jsonable({k: r2.get(k) for k in ('n', 'nt', 'viol', 'error')}), sort_keys=True)
-        if sig1 != sig2:
-            self.errors.append('leg %s: nondeterministic replay of first items' % leg.name)
+        probe = chunks[0][:min(leg.probe, len(chunks[0]))]
+        if probe:
+            _WORK[leg.name] = (leg.fn, [probe])
+            _, r1 = _run_chunk((leg.name, 0))
+            _, r2 = _run_chunk((leg.name, 0))
+            sig1 = json.dumps(jsonable({k: r1.get(k) for k in ('n', 'nt', 'viol', 'error')}), sort_keys=True)
+            sig2 = json.dumps(jsonable({k: r2.get(k) for k in ('n', 'nt', 'viol', 'error')}), sort_keys=True)
+            if sig1 != sig2:
+                self.errors.append('leg %s: nondeterministic replay of first items' % leg.name)
         order = list(range(len(chunks)))
         random.Random(self.seed * 7919 + len(chunks)).shuffle(order)
         _WORK[leg.name] = (leg.fn, chunks)
